@@ -31,10 +31,11 @@ impl Vm {
     message: LyStr,
   ) -> ExecutionSignal { unsafe {
     let error_message = val!(self.manage_str(message));
-    // Make sure we have enough space for the error message
+    // Make sure we have enough space for the error class and message
     // As this isn't accounted for during compilation
     let mut fiber = self.fiber;
-    fiber.ensure_stack(self, 1);
+    fiber.ensure_stack(self, 2);
+    fiber.push(val!(error));
     fiber.push(error_message);
 
     let mode = ExecutionMode::CallingNativeCode(self.fiber.frames().len());
